@@ -35,6 +35,21 @@ template<class T, size_t M, size_t K, size_t N> void g_matmul_expr() {
         Tensor<T,M,N> t; t = a % b; t += a % b; c = t; }, VG_SEED);      // (lazy % cannot be assigned to a map: it does not compile)
     VG_DESC("matmul_expr T=%s M=%zu K=%zu N=%zu", TN, M, K, N); print_report(desc, r);
 }
+// the small-N / remainder kernels: a, b and out each end exactly at a guard page (and start at one); few placements, many shapes
+template<class T, size_t M, size_t K, size_t N> void g_mmflush() {
+    Operand ops[] = {{M*K}, {K*N}, {M*N, OUT}};
+    auto r = sweep<T>(ops, 3, [](T* const* p) { Fastor::_matmul<T,M,K,N>(p[0], p[1], p[2]); }, VG_SEED, 2u | 4u);
+    VG_DESC("mmflush T=%s M=%zu K=%zu N=%zu", TN, M, K, N); print_report(desc, r);
+}
+// all five assignment operators, tensor / expression / scalar right-hand sides (integer and floating literals), destination a map
+template<class T, size_t N> void g_assign_ops() {
+    Operand ops[] = {{N}, {N, INOUT}, {N, INOUT}};
+    auto r = sweep<T>(ops, 3, [](T* const* p) {
+        TensorMap<T,N> a(p[0]); TensorMap<T,N> c(p[1]); TensorMap<T,N> d(p[2]);
+        c = a; c += a; c -= a * a; c *= a; c /= (a * a + T(1));
+        d = T(3); d += 2; d -= 1; d *= 2; d /= 2; d += T(2); d -= T(1); d *= T(2); d /= T(2); d = a + T(1); }, VG_SEED);
+    VG_DESC("assign_ops T=%s N=%zu", TN, N); print_report(desc, r);
+}
 template<class T, size_t M, size_t K, size_t N, class Lt, class Rt> void g_tmatmul_raw(const char* tags) {
     Operand ops[] = {{M*K}, {K*N}, {M*N, OUT}};
     auto r = sweep<T>(ops, 3, [](T* const* p) { Fastor::_tmatmul<T,M,K,N,Lt,Rt>(p[0], p[1], p[2]); }, VG_SEED, 2u);
